@@ -4,9 +4,9 @@
    also execute on the real code. *)
 GenConfigs == {
   [N |-> 3, kind |-> <<"call", "call", "call">>, args |-> <<<<>>, <<1>>, <<2>>>>, deps |-> <<<<>>, <<>>, <<>>>>,
-   reg |-> <<"src", "stored", "stored">>, wof |-> <<0, 0, 0>>, side |-> <<0, 0, 0>>, norm |-> TRUE,
+   reg |-> <<"src", "stored", "stored">>, wof |-> <<0, 0, 0>>, side |-> <<0, 0, 0>>, norm |-> TRUE, consistent |-> TRUE,
    outs |-> {<<>>, <<3>>}],
   [N |-> 4, kind |-> <<"call", "call", "call", "call">>, args |-> <<<<>>, <<1>>, <<>>, <<3>>>>, deps |-> <<<<>>, <<>>, <<2>>, <<>>>>,
-   reg |-> <<"src", "none", "src", "stored">>, wof |-> <<0, 0, 2, 0>>, side |-> <<0, 3, 0, 0>>, norm |-> FALSE,
+   reg |-> <<"src", "none", "src", "stored">>, wof |-> <<0, 0, 2, 0>>, side |-> <<0, 3, 0, 0>>, norm |-> FALSE, consistent |-> TRUE,
    outs |-> {<<>>, <<4>>, <<3, 4>>}] }
 =============================================================================
